@@ -11,7 +11,7 @@ RULE = ("trees with 1-3 groups (sizes 2-4), hard-link sets, symlinks reported wi
         "names, hostile file names (leading/trailing whitespace of several kinds, quotes, backslash, newline, CR, tab, "
         "non-UTF-8, '#', '~', '$'); x report format {text, JSON} x op {remove, link, link --soft, dedupe, move} x "
         "-n {unset, 2} x --priority {unset, bottom, newest} x {no pattern, --name, --keep-name}; `move` also into a target "
-        "directory that already holds files at the destination paths; two trees also with a member rewritten (same length) between `group` and the dedupe command, both run under TZ in {UTC, JST-9, PST8}; sequences of two commands on one report (link / link --soft first, then remove / link / link --soft / move with --priority top / bottom, reports with and without -H); real runs. Oracle: "
+        "directory that already holds files at the destination paths; one tree with a member rewritten (same length, new mtime) WHILE an earlier `group --cache [--transform cat]` run works on it (paused before and after every call that touches it), the report coming from a second undisturbed cached run; a dropped -S symlink whose target is not moved along; two trees also with a member rewritten (same length) between `group` and the dedupe command, both run under TZ in {UTC, JST-9, PST8}; sequences of two commands on one report (link / link --soft first, then remove / link / link --soft / move with --priority top / bottom, reports with and without -H); real runs. Oracle: "
         "inventory before/after (lstat + sha256, never through fclones): no content digest disappears from regular "
         "files (tree + move target); >= max(1,n) replicas per group completely untouched; nothing outside the reported "
         "groups changes; link/clone ops keep every path readable with the same bytes; move keeps the bytes under the "
@@ -72,6 +72,10 @@ def structural_trees():
     t["symlink_retained_outside"] = (["d1", "d2"], ["-S"], [
         {"p": "d1/L", "k": "sym", "to": "../out/T"}, {"p": "out/T", "k": "file", "c": lit("S")},
         {"p": "d2/sub/B", "k": "file", "c": lit("S")}, {"p": "d2/C", "k": "file", "c": lit("S")}])
+    # a DROPPED symlink whose (relative) target lies outside the scanned roots and is therefore not moved along
+    t["symlink_dropped_outside"] = (["d1", "d2"], ["-S"], [
+        {"p": "d1/A", "k": "file", "c": lit("S")}, {"p": "d2/x/L", "k": "sym", "to": "../../out/T"},
+        {"p": "out/T", "k": "file", "c": lit("S")}, {"p": "d2/M", "k": "sym", "to": "@TREE@/out/T"}])
     # files between an explicit --max-prefix-size and the default prefix of a non-SSD device (16 KiB), equal up to the
     # last byte: wrong groups from `group` would make the dedupe commands destroy content
     t["prefix_window"] = (["r1", "r2"], ["--max-prefix-size", "4096"], [
@@ -177,7 +181,74 @@ def cases(tier, seed):
                 for op, prio in (("remove", "top"), ("remove", "bottom"), ("link", "top"), ("softlink", "top"), ("move", "top")):
                     out.append({"tree": "s:" + tname, "roots": roots, "gargs": gargs + g2, "entries": entries, "fmt": fmt,
                                 "op": op, "n": None, "prio": prio, "pat": None, "pre": pre})
+    # a file is rewritten (same length) WHILE a first `group --cache [--transform cat]` run is working on it - at every
+    # call of that run that touches the file, just before and just after it; a second, undisturbed `group --cache` run
+    # then writes the report the dedupe command acts on: what the first run left in the cache may not cost any content
+    for op in ("remove", "link", "move"):
+        for tr in ([], ["--transform", "cat"]):
+            out.append({"kind": "cache_race", "op": op, "tr": tr, "tree": "cache_race", "fmt": "default"})
     return out
+
+
+def evaluate_cache_race(case):
+    from .. import shimlab as S
+    viol = []
+    feat = {"op": case["op"], "report_format": "default", "isolate": False, "symbolic_links": False, "victim_name_class": "plain",
+            "rewritten_during_an_earlier_cached_run": True, "transform": bool(case["tr"])}
+    L = 70000
+    tree = [{"p": "r/a", "k": "file", "c": ["base", L, 1]}, {"p": "r/b", "k": "file", "c": ["base", L, 1]},
+            {"p": "r/o", "k": "file", "c": lit("outsider")}]
+    changed_any = False
+    with C.Scratch() as sc, C.Scratch() as fast:
+        gargs = ["group", "--min", "0", "--cache", "-t", "1"] + case["tr"] + ["r"]
+        target = os.path.join(sc.root, "moved")
+        victim = sc.path("r/b").decode()
+
+        def fresh(n):
+            C.rmtree(sc.tree)
+            C.rmtree(target)
+            os.makedirs(sc.tree)
+            C.make_tree(sc.tree, tree)
+            env = {"FCLONES_VERIF_DISK_KIND": "ssd", "XDG_CACHE_HOME": os.path.join(fast.root, "cache%d" % n)}
+            os.makedirs(env["XDG_CACHE_HOME"])
+            return env
+
+        def rewrite():
+            data = C.content(["flip", L, 1, L // 2])
+            with open(victim, "r+b") as f:
+                f.write(data)
+            t = 1_700_000_000_000_000_000
+            os.utime(victim, ns=(t, t))
+
+        env = fresh(0)
+        rec = S.run_with_shim(sc, gargs, [sc.tree], "r", env_extra=env)
+        if rec["rc"] != 0:
+            raise C.MachineryError("group failed: %s" % rec["err"][-300:])
+        ev = rec["events"]
+        touch = [i for i, e in enumerate(ev) if e.path == victim]
+        positions = sorted(set(touch + [i + 1 for i in touch if i + 1 < len(ev)]))
+        for n, k in enumerate(positions):
+            env = fresh(n + 1)
+            res = S.run_with_shim(sc, gargs, [sc.tree], "r", mode="pause", at=k, env_extra=env, on_pause=rewrite)
+            if not res["paused"]:
+                raise C.MachineryError("group did not pause at event %d" % k)
+            rc, report, err, to = C.fclones(gargs, sc, env_extra=env)
+            if rc != 0 or to:
+                raise C.MachineryError("second group run failed: %s" % err[-300:])
+            before = C.inventory(sc.tree)
+            r = D.run_dedupe(sc, case["op"], [], report, target=target)
+            after = C.inventory(sc.tree, target) if os.path.exists(target) else C.inventory(sc.tree)
+            changed_any = changed_any or bool(C.inv_diff(before, {k2: v for k2, v in after.items() if not k2.startswith(target)}))
+            lost = set(x["sha"] for x in before.values() if x["type"] == "file") - set(x["sha"] for x in after.values() if x["type"] == "file")
+            if lost:
+                viol.append(dict(feat, kind="content_lost", retained_is_symlink=False,
+                                 detail="r/b rewritten (same length, new mtime) at event %d (%r) of a first `%s`; the report of a second, undisturbed run "
+                                        "lists %s; `%s` then destroyed the only copy of %s" % (
+                                            k, ev[k], " ".join(gargs), [[os.path.basename(C.u(p)) for p in g["paths"]] for g in D.report_groups(report).groups],
+                                            case["op"], [p for p, x in before.items() if x.get("sha") in lost])))
+    return {"violations": viol, "nontrivial": ["cache_race", case["op"], bool(case["tr"])], "outcome": "cache_race",
+            "counters": {"rewrites_during_a_cached_run": len(positions)},
+            "sample": {"cache_race": case["op"], "transform": case["tr"], "positions": len(positions)}}
 
 
 def name_class(name):
@@ -193,6 +264,8 @@ def name_class(name):
 
 
 def evaluate(case):
+    if case.get("kind") == "cache_race":
+        return evaluate_cache_race(case)
     viol = []
     symlinks = "-S" in case["gargs"]
     isolate = "--isolate" in case["gargs"]
@@ -333,6 +406,17 @@ def evaluate(case):
                     a = after.get(tp)
                     if a is None or a.get("sha") != rec["sha"]:
                         viol.append(dict(feat, kind="moved_file_missing", detail="%r not found with the same bytes at %r" % (p, tp)))
+                if rec["type"] == "sym" and p in members and p not in after and p in content_before and not p.startswith(target):
+                    # a reported symlink (-S) that was moved: the bytes it gave access to must be readable under DIR
+                    tp = target + p
+                    try:
+                        now = C.sha(C.read_file(C.b(tp)))
+                    except OSError as e:
+                        now = "unreadable: %s" % e
+                    if now != content_before[p]:
+                        viol.append(dict(feat, kind="moved_link_unreadable", link_target_relative=not rec.get("target", "").startswith("/"),
+                                         detail="the reported symbolic link %r (-> %s) was moved to %r, where it reads: %s" % (
+                                             p, rec.get("target"), tp, now)))
         changed = bool(C.inv_diff({k: v for k, v in before.items() if not k.startswith(target)},
                                   {k: v for k, v in after.items() if not k.startswith(target)}))
     return {"violations": viol, "nontrivial": [case["tree"], case["fmt"], case["op"], case["n"], case["prio"], case["pat"], case.get("prepop"), case.get("native")] if changed else None,
